@@ -197,6 +197,7 @@ Ev(e, env, grp, db) ==
 \* FROM: sequence of concatenated rows.  `outer' = env of the enclosing query (without own row)
 F(f, outer, db) ==
     IF f[1] = "t" THEN db[f[2]]
+    ELSE IF f[1] = "sub" THEN Q(f[2], <<>>, db)      \* derived table: its own query, no access to the outer row
     ELSE LET jt == f[2]
              L == F(f[3], outer, db)
              R == F(f[4], outer, db)
